@@ -389,6 +389,11 @@ class ElementModel:
             raise Unmodelled("no element")
         pos = self._locate_set(elems, args[0])
         if pos is None:
+            if self.kind != "kset" and isinstance(args[0], (int, float)) and any(
+                    e.kind == "plain" and isinstance(e.value, (int, float)) and e.value == args[0] for e in elems):
+                # addressed by an equal value of another type (1.0 for 1): a built-in set cannot hand the stored
+                # member back, so what an update or transform then sees is not specified
+                raise Unmodelled("member addressed by an equal value of another type")
             raise Raises(ValueError, KeyError)
         if verb == "without":
             del elems[pos]
